@@ -3,7 +3,7 @@
    (event classes, step shapes) is in coq/C12/Spec.v. *)
 From Coq Require Import List Arith Bool QArith.
 From Scenic Require C11.LTL.
-From Scenic Require Import C12.Dyn C12.Spec C12.DynProofs.
+From Scenic Require Import C12.Dyn C12.Spec C12.DynProofs C12.DoFor.
 Import ListNotations.
 Local Open Scope nat_scope.
 
@@ -131,6 +131,24 @@ Theorem C12_do_for_until_resumes_body : forall f P w t m ib o subs o' body kb c 
 Proof. exact try_body_resumes. Qed.
 Print Assumptions C12_do_for_until_ends_exact.
 Print Assumptions C12_do_for_until_resumes_body.
+
+(* END TO END, at the level of the agent's generator: `do B for n steps` where B keeps acting (`while True: take a`,
+   no guards) and the caller has no invariants.  [drive fuel n t0 …] resumes the generator in n consecutive time
+   steps starting at the step t0 in which the statement is reached: it yields B's action exactly n times, the
+   statement staying suspended in between; the NEXT resumption (step t0 + n) executes what follows the statement
+   without resuming B; for n = 0 the statement ends at once.  Hence exactly n action entries come from B. *)
+Theorem C12_do_for_exactly_n_actions : forall P w b a o m n t0 ss k0,
+  nth_error (p_behaviors P) b = Some {| b_pre := []; b_inv := []; b_body := [SWhile (CConst true) [STake a]] |} ->
+  inv_of P o = [] -> match m with MScen _ => False | _ => True end ->
+  forall f ib subs,
+  (0 < n -> drive P w o m (12 + f) n t0 ib subs (FSeq (SDoFor b (lim n) :: ss) :: k0) =
+            Some (repeat [a] n, kstmt b o n t0 ss k0 false (Some (kb b a o)))) /\
+  (forall bk fresh, run (S (S (S f))) P w (t0 + n) m ib o subs (kstmt b o n t0 ss k0 fresh bk) =
+                    run f P w (t0 + n) m ib o subs (FSeq ss :: k0)) /\
+  (n = 0 -> run (S (S (S (S f)))) P w t0 m ib o subs (FSeq (SDoFor b (lim n) :: ss) :: k0) =
+            run f P w t0 m ib o subs (FSeq ss :: k0)).
+Proof. exact do_for_end_to_end. Qed.
+Print Assumptions C12_do_for_exactly_n_actions.
 
 (* terminate when: stops in the step in which a condition is true, and only then *)
 Theorem C12_terminate_when_exact : forall P w t sc sid el mons reqs k' subs' e,
